@@ -170,7 +170,32 @@ ADD = {
  "C16": ("path rules on raw chunks and the chunk budget", " Added: SEQ-RAWFILL, SEQ-BUDGET."),
  "C17": ("allocation / budget / ring-modulus structural preconditions", " Added: WR-HTALLOC (hash chain covers the whole dictionary), SEQ-BUDGET, RING-MOD on the match finders. Still only structural preconditions of the bounds."),
  "C18": ("wiring of the declared size per block", " Added: WR-DICT-BLOCK (every block header declares the capacity its own encoder uses)."),
+ "C04": ("width-aware formula templates", ""),
+ "C09": ("fail-stop and deferred-call rules", ""),
+ "C12": ("container and chunk rules per member", ""),
 }
+ADD3 = {
+ "C01": " Round 3: SIB-REOPEN, WR-ENCDICT, WR-DICT-ENC, dictionary-code rules (CE-DICT-ENC, CE-FILTER).",
+ "C02": " Round 3: TM-INDEX, OB-LCLP, RING-MOD, WR-DICT-ENC, WR-ENCDICT.",
+ "C03": " Round 3: TM-INDEX, OB-BYTEAT, SIB-REOPEN, WR-LITINIT, SEQ-NIL-DECODER.",
+ "C04": " Round 3: OB-V23-ONLY; width-aware formula templates (32-bit wrap before widening).",
+ "C05": " Round 3: %w wrapping keeps the raw-EOF tag (errors.Is still interprets a wrapped EOF).",
+ "C06": " Round 3: WR-ENCDICT, EF-DEFER-FLUSH.",
+ "C07": " Round 3: TM-INDEX, exact decoder guards, OB-BYTEAT.",
+ "C08": " Round 3: SEQ-FAILSTOP, SIB-REOPEN, OB-M1.",
+ "C09": " Round 3: SEQ-FAILSTOP, EF-DEFER-FLUSH, EF-IO replaced-after-known-failure.",
+ "C10": " Round 3: EF-EOF over the library reader cone, EF-DEFER-FLUSH.",
+ "C11": " Round 3: WR-LITINIT, SEQ-NIL-DECODER, SEQ-ADVANCE (n <= len(p)).",
+ "C12": " Round 3: container checks with exact relations and LZMA2 chunk effects for every member of a chain.",
+ "C13": " Round 3: SEQ-ADVANCE, OB-V23-ONLY, container checks.",
+ "C15": " Round 3: the library bundle behind gxz (spec constants, SIB-OP / SIB-CODEC, container reader/writer rules, chunk rules) because every library defect is a gxz defect.",
+ "C16": " Round 3: OB-BYTEAT, SIB-REOPEN, SEQ-NIL-DECODER, width-aware +1 size roles.",
+ "C17": " Round 3: WR-PEEKLEN, SEQ-FEED. Not decided: tuning constants (seed C17-9).",
+ "C18": " Round 3: WR-DICT-ENC, WR-ENCDICT.",
+}
+for pid, text in ADD3.items():
+    tech, t0 = ADD[pid]
+    ADD[pid] = (tech, t0 + text)
 for pid, (tech, text) in ADD.items():
     t0, x0, n0, r0 = CLAIMS[pid]
     CLAIMS[pid] = (t0 + "; " + tech, x0 + text, n0 + "TERM normal forms (term.go), LIN (lin.go), reference function table knownfuncs.txt. ", r0 + ", §12")
